@@ -102,7 +102,15 @@ func badNodeOf(n ast.Node) *ast.BadNode {
 }
 
 // relexRecovery lexes s with the recovery-mode lexer (lexically bad tokens come back as <bad>).
+// relexRecovery: the raw call under the deadline of safely (a lexer or splitter that loops is reported, not waited for).
 func relexRecovery(s string) (toks []token.Token, crashed any) {
+	if p := safely(func() { toks, crashed = relexRecoveryRaw(s) }); p != nil {
+		crashed = p
+	}
+	return
+}
+
+func relexRecoveryRaw(s string) (toks []token.Token, crashed any) {
 	defer func() {
 		if r := recover(); r != nil {
 			crashed = r
